@@ -1185,6 +1185,12 @@ pub(crate) fn check_continuous_headers(headers: &[HeaderView]) -> Result<(), Sta
     Ok(())
 }
 
+// The maximum leaf index (block number) which could be handled by the MMR library without
+// overflow: `leaf_index_to_mmr_size` does `2 * (index + 1)`, `get_peaks` does
+// `1 << (height + 1)` until it is not less than the MMR size, so the MMR size should be
+// less than `2^63`.
+const MMR_LEAF_INDEX_MAX: BlockNumber = (1 << 62) - 2;
+
 pub(crate) fn verify_mmr_proof<'a, T: Iterator<Item = &'a HeaderView>>(
     mmr_activated_epoch: EpochNumber,
     last_header: &VerifiableHeader,
@@ -1206,8 +1212,58 @@ pub(crate) fn verify_mmr_proof<'a, T: Iterator<Item = &'a HeaderView>>(
         return Err(StatusCode::InvalidProof.with_context(errmsg));
     };
     let parent_chain_root = last_header.parent_chain_root();
+    let end_number: BlockNumber = parent_chain_root.end_number().unpack();
+    // The MMR library and the merge function do unchecked arithmetics on the numbers and the
+    // total difficulties, which are from the unverified inputs.
+    if end_number > MMR_LEAF_INDEX_MAX {
+        let errmsg = format!(
+            "failed to verify the chain root for block-{} ({:#x}) \
+            since its end number {} is too big",
+            last_header.header().number(),
+            last_header.header().hash(),
+            end_number,
+        );
+        return Err(StatusCode::InvalidProof.with_context(errmsg));
+    }
+    let headers = headers.collect::<Vec<_>>();
+    if let Some(header) = headers.iter().find(|header| header.number() > end_number) {
+        let errmsg = format!(
+            "failed to verify the proof since block-{} ({:#x}) is not in the chain root [0, {}]",
+            header.number(),
+            header.hash(),
+            end_number,
+        );
+        return Err(StatusCode::InvalidProof.with_context(errmsg));
+    }
+    {
+        // Each input is merged once at most, so the total difficulty of any merged item is
+        // not greater than the sum of all inputs.
+        let mut total_difficulty = Some(U256::zero());
+        for header in &headers {
+            total_difficulty =
+                total_difficulty.and_then(|sum| sum.checked_add(&header.difficulty()));
+        }
+        for item in raw_proof.iter() {
+            let item_end_number: BlockNumber = item.end_number().unpack();
+            if item_end_number > end_number {
+                let errmsg = format!(
+                    "failed to verify the proof since a proof item [-, {}] is not in \
+                    the chain root [0, {}]",
+                    item_end_number, end_number,
+                );
+                return Err(StatusCode::InvalidProof.with_context(errmsg));
+            }
+            let item_total_difficulty: U256 = item.total_difficulty().unpack();
+            total_difficulty =
+                total_difficulty.and_then(|sum| sum.checked_add(&item_total_difficulty));
+        }
+        if total_difficulty.is_none() {
+            let errmsg = "failed to verify the proof since the total difficulty is overflow";
+            return Err(StatusCode::InvalidProof.with_context(errmsg));
+        }
+    }
     let proof: MMRProof = {
-        let mmr_size = leaf_index_to_mmr_size(parent_chain_root.end_number().unpack());
+        let mmr_size = leaf_index_to_mmr_size(end_number);
         let proof = raw_proof
             .iter()
             .map(|header_digest| header_digest.to_entity())
@@ -1217,6 +1273,7 @@ pub(crate) fn verify_mmr_proof<'a, T: Iterator<Item = &'a HeaderView>>(
 
     let digests_with_positions = {
         let res = headers
+            .into_iter()
             .map(|header| {
                 let index = header.number();
                 let position = leaf_index_to_pos(index);
